@@ -132,6 +132,8 @@ def make_setup(enter_given, leave_given):
             _set(G, "lv", z3.Store(_arr(G, "lv"), xz, v.z))
             return v
 
+        S.eng.assumptions.add("assumed-lemma:traverse client rule event model: the obligations _traverse_dfs/enter/... and _traverse_dfs/leave/... are the premises of Step.enter / "
+                              "Step.leave of lean/TraverseRule.lean (read clause by clause; ent / left = the callback was called with that node)")
         return dict(topology=(ids, pids), root=root, enter=Callback("enter", enter_model) if enter_given else None,
                     leave=Callback("leave", leave_model) if leave_given else None, G=G)
 
@@ -712,36 +714,69 @@ def register_wrappers(R):
     from pyvc.spec import SpecFn  # noqa: F401
 
     # ---- swc_utils.traverse: mode dispatch
-    def tr_setup(S):
-        n = S.int("n")
-        S.assume(n.z >= 1)
-        return dict(topology=(S.arr("int", n=n, name="ids"), S.arr("int", n=n, name="pids")), mode="dfs",
-                    kwargs=PDict(dict(enter=Callback("enter", lambda E, a, k: fresh("oref", "e")), leave=Callback("leave", lambda E, a, k: fresh("oref", "l")), root=S.int("root"))))
+    # Variants: which of enter / leave / root the caller passes (what is omitted must reach _traverse_dfs as ITS default: no callback,
+    # start node 0), and the `mode` argument: omitted, "dfs", or something else (then ValueError and nothing is traversed).
+    def tr_setup(mode, given):
+        def f(S):
+            n = S.int("n")
+            S.assume(n.z >= 1)
+            called = []
+            kw = {}
+            if "enter" in given:
+                kw["enter"] = Callback("enter", lambda E, a, k: (called.append("enter"), fresh("oref", "e"))[1])
+            if "leave" in given:
+                kw["leave"] = Callback("leave", lambda E, a, k: (called.append("leave"), fresh("oref", "l"))[1])
+            if "root" in given:
+                kw["root"] = S.int("root")
+            d = dict(topology=(S.arr("int", n=n, name="ids"), S.arr("int", n=n, name="pids")), kwargs=PDict(kw), __ghost__=dict(called=called))
+            if mode is not None:
+                d["mode"] = mode
+            return d
+
+        return f
+
+    def _same_arg(E, a, b):
+        if a is None or b is None or isinstance(a, Callback) or isinstance(b, Callback):
+            return a is b
+        return to_z3(a, "int") == to_z3(b, "int")
 
     def tr_post(E, v, o):
         if E.cur_key != f"{BASE}:traverse":
             return True  # effect clause about the callee's own execution: says nothing at a call site
         calls = [kw for nm, kw in E.call_log if nm == "_traverse_dfs"]
-        if len(calls) != 1:
-            return False
+        if len(calls) != 1 or E.spec_extra["called"]:
+            return False  # exactly one delegation, and the dispatcher itself calls no callback
         c = calls[0]
         kw = v["kwargs"].items
-        return z3.And(c["topology"] is v["topology"], c["enter"] is kw["enter"], c["leave"] is kw["leave"], E.is_same(c["root"], kw["root"]) is True or to_z3(c["root"], "int") == to_z3(kw["root"], "int"),
+        return z3.And(c["topology"] is v["topology"], c["enter"] is kw.get("enter"), c["leave"] is kw.get("leave"), _same_arg(E, c["root"], kw.get("root", 0)),
                       to_z3(v["result"], "oref") == to_z3(c["__result__"], "oref"))
 
-    R.add(f"{BASE}:traverse", prop="C04", setup=tr_setup, returns="oref", options=dict(modular=True),
-          ensures=[("delegates-once-to-the-iterative-dfs-with-the-same-arguments-and-returns-its-result", tr_post)])
-    R.add(f"{BASE}:traverse#bad-mode", prop="C04") if False else None
+    def tr_bad_mode(E, v, o):
+        return v["mode"] != "dfs" and not E.call_log and not E.spec_extra["called"]
+
+    tr_variants = {}
+    for mode, mname in ((None, "mode omitted"), ("dfs", "mode dfs"), ("bfs", "mode bfs"), ("", "mode empty"), ("DFS", "mode DFS")):
+        for given in (("enter", "leave", "root"), ("enter",), ("leave", "root"), ()):
+            tr_variants[f"{mname}; passes {' '.join(given) or 'nothing'}"] = tr_setup(mode, given)
+    R.add(f"{BASE}:traverse", prop="C04", variants=tr_variants, returns="oref", options=dict(modular=True),
+          raises={"ValueError": ("any-mode-but-dfs-and-nothing-was-traversed", tr_bad_mode)},
+          ensures=[("delegates-once-to-the-iterative-dfs-with-the-same-arguments-and-returns-its-result", tr_post),
+                   ("returns-normally-only-in-dfs-mode", lambda E, v, o: True if E.cur_key != f"{BASE}:traverse" else v["mode"] == "dfs")])
 
     # ---- Tree.traverse: callbacks receive node handles of the same tree, same ids, same other arguments
     from contracts.common import col, nof, sym_tree
 
-    def tt_setup(enter_given, leave_given):
+    def tt_setup(enter_given, leave_given, extra=("root",)):
         def f(S):
             t = sym_tree(S, "t", frozen=True)
             elog, llog = [], []
-            d = dict(self=t, enter=_cb("enter", elog) if enter_given else None, leave=_cb("leave", llog) if leave_given else None, kwargs=PDict(dict(root=S.int("root"))))
-            d["__ghost__"] = dict(elog=elog, llog=llog)
+            kw = {}
+            if "root" in extra:
+                kw["root"] = S.int("root")
+            if "mode" in extra:
+                kw["mode"] = "dfs"
+            d = dict(self=t, enter=_cb("enter", elog) if enter_given else None, leave=_cb("leave", llog) if leave_given else None, kwargs=PDict(kw))
+            d["__ghost__"] = dict(elog=elog, llog=llog, passed=dict(kw))
             return d
 
         return f
@@ -752,7 +787,10 @@ def register_wrappers(R):
         v["__calls__"] = calls
         if len(calls) != 1:
             return
-        kw = calls[0]["kwargs"].items if isinstance(calls[0].get("kwargs"), PDict) else {}
+        kw = dict(calls[0]["kwargs"].items) if isinstance(calls[0].get("kwargs"), PDict) and calls[0]["kwargs"].items is not None else {}
+        for nm in ("enter", "leave"):  # swc_utils.traverse collects them in **kwargs today; a signature that names them is followed too
+            if nm in calls[0]:
+                kw[nm] = calls[0][nm]
         t = v["self"]
         k = fresh("int", "k")
         E.assume(z3.And(k.z >= 0, k.z < nof(t)))
@@ -768,7 +806,19 @@ def register_wrappers(R):
             probe[nm] = dict(k=k, extra=extra, ret=r, seen=log[before:])
         v["__probe__"] = probe
 
-    def tt_post(E, v, o):
+    def _call_arg(c, name, default=None):
+        """argument `name` of a logged call, whether the callee names it as a parameter or collects it in **kwargs"""
+        if name in c and name != "kwargs":
+            return c[name]
+        kw = c.get("kwargs")
+        if isinstance(kw, PDict) and kw.items is not None and name in kw.items:
+            return kw.items[name]
+        return default
+
+    def _same_int(a, b):
+        return to_z3(a, "int") == to_z3(b, "int")
+
+    def tt_post(E, v, o, only_delegation=False):
         if E.cur_key != f"{TREE}:Tree.traverse":
             return True
         calls = v.get("__calls__", [])
@@ -777,13 +827,17 @@ def register_wrappers(R):
         c = calls[0]
         t = v["self"]
         topo = c["topology"]
-        kw = c["kwargs"].items
-        ok = [topo[0] is col(t, "id"), topo[1] is col(t, "pid"), c["mode"] == "dfs",
-              to_z3(kw["root"], "int") == to_z3(v["kwargs"].items["root"], "int"), to_z3(v["result"], "oref") == to_z3(c["__result__"], "oref")]
+        passed = E.spec_extra["passed"]  # what the caller passed besides the callbacks: the start node and / or the mode, or nothing
+        # the WHOLE table of this tree (the very id / pid columns), the caller's start node (node 0 if none) and mode ("dfs" if none)
+        ok = [isinstance(topo, tuple) and len(topo) == 2 and topo[0] is col(t, "id"), isinstance(topo, tuple) and len(topo) == 2 and topo[1] is col(t, "pid"),
+              _call_arg(c, "mode", "dfs") == passed.get("mode", "dfs"), _same_int(_call_arg(c, "root", 0), passed.get("root", 0)),
+              to_z3(v["result"], "oref") == to_z3(c["__result__"], "oref")]
+        if only_delegation:
+            return z3.And(*[x if not isinstance(x, bool) else z3.BoolVal(x) for x in ok])
         for nm in ("enter", "leave"):
             user = v[nm]
             if user is None:
-                ok.append(kw.get(nm) is None)
+                ok.append(_call_arg(c, nm) is None)
                 continue
             pr = v["__probe__"][nm]
             if pr is None or len(pr["seen"]) != 1:
@@ -798,32 +852,46 @@ def register_wrappers(R):
         return z3.And(*[x if not isinstance(x, bool) else z3.BoolVal(x) for x in ok])
 
     R.add(f"{TREE}:Tree.traverse", prop="C04",
-          variants={"enter+leave": tt_setup(True, True), "enter-only": tt_setup(True, False), "leave-only": tt_setup(False, True)},
+          variants={"enter+leave": tt_setup(True, True), "enter-only": tt_setup(True, False), "leave-only": tt_setup(False, True),
+                    "enter+leave, no start node given": tt_setup(True, True, ()), "leave-only, no start node given": tt_setup(False, True, ()),
+                    "enter+leave, start node and mode given": tt_setup(True, True, ("root", "mode"))},
           ghost_exit=tt_exit, returns="oref",
           # the wrapper hands closures to swc_utils.traverse; its contract does not rely on their effects (it probes them itself)
           options=dict(modular=True, modular_traverse_ok=True),
-          ensures=[("callbacks-see-handles-of-the-same-nodes-and-values-pass-through-unchanged", tt_post)])
+          ensures=[("delegates-once-with-the-whole-table-of-this-tree-the-callers-start-node-and-mode-and-returns-the-result", lambda E, v, o: tt_post(E, v, o, True)),
+                   ("callbacks-see-handles-of-the-same-nodes-and-values-pass-through-unchanged", tt_post)])
 
     # ---- Tree.Node.traverse: starts at this node
-    def tn_setup(S):
-        from swcgeom.core.tree import Tree
+    def tn_setup(enter_given, leave_given, mode_given=False):
+        def f(S):
+            from swcgeom.core.tree import Tree
 
-        t = sym_tree(S, "t", frozen=True)
-        i = S.int("idx")
-        S.assume(z3.And(i.z >= 0, i.z < nof(t)))
-        return dict(self=S.obj(Tree.Node, attach=t, idx=i, names=t.fields["names"]), kwargs=PDict(dict(enter=_cb("enter", []), leave=_cb("leave", []))))
+            t = sym_tree(S, "t", frozen=True)
+            i = S.int("idx")
+            S.assume(z3.And(i.z >= 0, i.z < nof(t)))
+            kw = {}
+            if enter_given:
+                kw["enter"] = _cb("enter", [])
+            if leave_given:
+                kw["leave"] = _cb("leave", [])
+            if mode_given:
+                kw["mode"] = "dfs"
+            return dict(self=S.obj(Tree.Node, attach=t, idx=i, names=t.fields["names"]), kwargs=PDict(kw))
+
+        return f
 
     def tn_post(E, v, o):
         calls = [kw for nm, kw in E.call_log if nm == "Tree.traverse"]
         if len(calls) != 1:
             return False
         c = calls[0]
-        kw = c["kwargs"].items
         mine = v["kwargs"].items
-        return z3.And(c["self"] is v["self"].fields["attach"], c["enter"] is mine["enter"], c["leave"] is mine["leave"],
-                      to_z3(kw["root"], "int") == to_z3(v["self"].fields["idx"], "int"), to_z3(v["result"], "oref") == to_z3(c["__result__"], "oref"))
+        return z3.And(c["self"] is v["self"].fields["attach"], _call_arg(c, "enter") is mine.get("enter"), _call_arg(c, "leave") is mine.get("leave"),
+                      _call_arg(c, "mode", "dfs") == mine.get("mode", "dfs"),
+                      _same_int(_call_arg(c, "root", 0), v["self"].fields["idx"]), to_z3(v["result"], "oref") == to_z3(c["__result__"], "oref"))
 
-    R.add(f"{TREE}:Tree.Node.traverse", prop="C04", setup=tn_setup,
+    R.add(f"{TREE}:Tree.Node.traverse", prop="C04",
+          variants={"enter+leave": tn_setup(True, True), "enter-only": tn_setup(True, False), "leave-only": tn_setup(False, True), "enter+leave, mode given": tn_setup(True, True, True)},
           ensures=[("traverses-the-owning-tree-starting-at-this-node", tn_post)])
 
 
